@@ -22,8 +22,8 @@ import (
 	sdkmath "cosmossdk.io/math"
 	wasmkeeper "github.com/CosmWasm/wasmd/x/wasm/keeper"
 	wasmvmtypes "github.com/CosmWasm/wasmvm/v2/types"
-	"github.com/cosmos/gogoproto/proto"
 	sdk "github.com/cosmos/cosmos-sdk/types"
+	"github.com/cosmos/gogoproto/proto"
 	skywaytypes "github.com/palomachain/paloma/v2/x/skyway/types"
 	"github.com/palomachain/paloma/v2/zzverif/report"
 	"github.com/palomachain/paloma/v2/zzverif/world"
@@ -102,12 +102,12 @@ type checker struct {
 	fields map[string][]idField
 	before map[string]projection
 	// counters
-	stage     map[string]int
-	accepted  int
-	changedA  int
-	unattrib  map[string]int
-	exempted  map[string]int
-	deliveries int
+	stage         map[string]int
+	accepted      int
+	changedA      int
+	unattrib      map[string]int
+	exempted      map[string]int
+	deliveries    int
 	wasmForgeable map[string]bool
 	panics        []string
 }
@@ -772,4 +772,3 @@ func (c *checker) dump() {
 	}
 	fmt.Println("records:", len(p))
 }
-
